@@ -57,6 +57,10 @@ def cdict(pairs):
     return clist([f"({cstr(k)}, {cval(v)})" for k, v in pairs])
 
 
+def cdict_i(pairs, K):
+    return clist([f"({K(k)}, {cval(v)})" for k, v in pairs])
+
+
 def float_parses(s):
     try:
         float(s)
@@ -103,14 +107,16 @@ def ccalls(calls):
     return clist(out)
 
 
-def cobs(r, with_dict=False):
+def cobs(r, K, with_dict=False):
+    """K: key string -> index (Coq nat literal) in the per-file key table `ks`"""
     if r["ok"]:
         g = "None" if r["is_global"] is None else f"(Some {'true' if r['is_global'] else 'false'})"
-        return (f"(ObsOk {cdict(r['consts'])} {cdict(r['tconsts'])} {clist([cstr(f) for f in r['flags']])} {g} {cstr(r['desc'])})")
+        return (f"(obs_of ks (ObsOkI {cdict_i(r['consts'], K)} {cdict_i(r['tconsts'], K)} {clist([K(f) for f in r['flags']])} "
+                f"{g} {cstr(r['desc'])}))")
     k = KIND.get(r["kind"])
     kk = f"(Some {k})" if k else "None"
-    d = f"(Some {cdict(r['consts'])})" if with_dict else "None"
-    return f"(ObsRej {kk} {d})"
+    d = f"(Some {cdict_i(r['consts'], K)})" if with_dict else "None"
+    return f"(obs_of ks (ObsRejI {kk} {d}))"
 
 
 def rowname(rid):
@@ -347,8 +353,16 @@ def eval_cases(ctx, name, terms_by_row, rowdefs):
 
     def one(args):
         ci, (idxs, rids) = args
+        tab = {}
+
+        def K(key):
+            if key not in tab:
+                tab[key] = len(tab)
+            return f"{tab[key]}%nat"
+        built = [terms_by_row[i][1](K) if callable(terms_by_row[i][1]) else terms_by_row[i][1] for i in idxs]
         defs = "\n".join(rowdef(r, rowdefs[r]) for r in sorted(rids))
-        codes = ctx.coq_codes(f"{name}_{ci}", IMPORTS, [terms_by_row[i][1] for i in idxs], per_file=10 ** 6, defs=defs, timeout=1500)
+        defs += "\nDefinition ks : list string := " + clist([cstr(k) for k in tab]) + "."
+        codes = ctx.coq_codes(f"{name}_{ci}", IMPORTS, built, per_file=10 ** 6, defs=defs, timeout=1500)
         return list(zip(idxs, codes))
     out = [None] * len(terms_by_row)
     with ThreadPoolExecutor(max_workers=16) as ex:
@@ -403,11 +417,11 @@ def correspondence(ctx, info):
     dist = {}
     for c, r in zip(dcases, res["dispatch"]):
         try:
-            t = f"check_dispatch {TOL} {copts(c['opts'])} {rowname(r['row'])} {cobs(r)}"
+            head = f"check_dispatch {TOL} {copts(c['opts'])} {rowname(r['row'])} "
         except ValueError as e:
             ctx.log("skipped inexpressible case:", e)
             continue
-        terms.append((r["row"], t, ("dispatch", c, r)))
+        terms.append((r["row"], (lambda K, head=head, r=r: head + cobs(r, K)), ("dispatch", c, r)))
         key = c["kind"] + ("/accepted" if r["ok"] else "/" + r["kind"])
         dist[key] = dist.get(key, 0) + 1
         ctx.count(("d", c["opts"], c["row"] if isinstance(c["row"], (str, type(None))) else c["row"]["id"]),
@@ -423,7 +437,8 @@ def correspondence(ctx, info):
     for c, r in zip(hcases, res["history"]):
         with_dict = (not r["ok"] and c["same"] and r["kind"] == "AssertRejected" and r["fail_index"] == len(c["calls"]) - 1
                      and not c["b"].startswith("init_"))
-        terms.append((r["row"], f"check_history {TOL} {ccalls(c['calls'])} {rowname(r['row'])} {cobs(r, with_dict)}", ("history", c, r)))
+        head = f"check_history {TOL} {ccalls(c['calls'])} {rowname(r['row'])} "
+        terms.append((r["row"], (lambda K, head=head, r=r, wd=with_dict: head + cobs(r, K, wd)), ("history", c, r)))
         key = "hist:" + c["kind"] + ("/accepted" if r["ok"] else "/" + r["kind"])
         dist[key] = dist.get(key, 0) + 1
         ctx.count(("h", c["calls"], c["row"]), nontrivial=r["ok"] or c["same"])
